@@ -28,8 +28,21 @@ LEVEL = "fault_enumeration"
 _IDX = re.compile(r"\[\d+\]")
 
 
+HEAVY = {
+    # the iterative decompositions and estimators the property is anchored in have by far the largest
+    # option spaces: they get four times as many workloads as the small functions
+    "parafac", "CP.fit_transform", "non_negative_parafac", "non_negative_parafac_hals", "constrained_parafac", "tucker",
+    "partial_tucker", "non_negative_tucker", "non_negative_tucker_hals", "parafac2", "randomised_parafac", "robust_pca",
+    "CP_PLSR", "CPRegressor", "TuckerRegressor", "svd_interface", "tensor_ring_als", "tensor_ring_als_sampled",
+}  # fmt: skip
+
+
 def entries():
-    return [e for e in catalog.ENTRIES.values() if "c15" in e["groups"]]
+    out = []
+    for e in catalog.ENTRIES.values():
+        if "c15" in e["groups"]:
+            out.extend([e] * (4 if e["name"] in HEAVY else 1))
+    return out
 
 
 def fingerprint(entry, path, kind, tags=()):
@@ -59,7 +72,35 @@ def build(spec, P):
     g = catalog.Choices(replay=spec["choices"], seed_value=spec.get("seed", 0), callback=make_callback(P) if e["cb"] else None, dtype=spec.get("dtype"))
     call = e["build"](g)
     call.setdefault("exempt", [])
+    corrupt(call["kwargs"], spec.get("corrupt"))
     return call, g
+
+
+CORRUPTIONS = ["mask_shape", "rank_zero", "rank_big", "fixed_oob", "init_short", "iter_neg", "tensor_1d"]
+
+
+def corrupt(kw, how):
+    """Turn a valid call into one the library rejects (or half-executes): calls that raise are in scope."""
+    if not how:
+        return
+    if how == "mask_shape" and isinstance(kw.get("mask"), np.ndarray) and kw["mask"].ndim >= 1 and kw["mask"].shape[-1] > 1:
+        kw["mask"] = np.ascontiguousarray(kw["mask"][..., :-1])
+    elif how == "rank_zero" and isinstance(kw.get("rank"), int):
+        kw["rank"] = 0
+    elif how == "rank_big" and "rank" in kw:
+        kw["rank"] = 50 if isinstance(kw["rank"], int) else [50 for _ in kw["rank"]] if isinstance(kw["rank"], (list, tuple)) else kw["rank"]
+    elif how == "fixed_oob" and isinstance(kw.get("fixed_modes"), list):
+        kw["fixed_modes"] = list(kw["fixed_modes"]) + [7]
+    elif how == "init_short" and isinstance(kw.get("init"), (tuple, list)) and len(kw["init"]) == 2 and isinstance(kw["init"][1], list) and len(kw["init"][1]) > 1:
+        short = list(kw["init"][1][:-1])
+        kw["init"] = (kw["init"][0], short) if isinstance(kw["init"], tuple) else [kw["init"][0], short]
+    elif how == "iter_neg" and "n_iter_max" in kw:
+        kw["n_iter_max"] = -1
+    elif how == "tensor_1d":
+        for k in ("tensor", "input_tensor", "X", "matrix"):
+            if isinstance(kw.get(k), np.ndarray) and kw[k].ndim >= 2:
+                kw[k] = kw[k].reshape(-1).copy()
+                break
 
 
 def snap_args(kwargs):
@@ -301,7 +342,7 @@ def run_workload(spec, P, rng, tier, cnt):
                 (fp, f"{spec['entry']}: argument {path} {kind} after KeyboardInterrupt at executed library line {k} ({r['fired'][1]}); call {r['outcome']}",
                  dict(spec, fault={"line": k, "kind": "KeyboardInterrupt@line"}))
             )  # fmt: skip
-    dg = digest_obj([spec["entry"], spec["choices"], spec.get("tenalg"), spec.get("dtype"), n, base["names"], base["transient"], base["outcome"], outcomes,
+    dg = digest_obj([spec["entry"], spec["choices"], spec.get("tenalg"), spec.get("dtype"), spec.get("corrupt"), n, base["names"], base["transient"], base["outcome"], outcomes,
                      lbase["n_lines"], lbase["transient_lines"], louts])
     return viols, dg, n, len(pts) + len(lpts)
 
@@ -311,6 +352,7 @@ def gen_spec(rng, r, ents):
     g = catalog.Choices(rng=rng, seed_value=rng.randrange(3), callback=(lambda *a, **k: None) if e["cb"] else None)
     e["build"](g)  # only to record a choice sequence of the right length
     return {"entry": e["name"], "choices": list(g.rec), "seed": g.seed_value, "tenalg": "einsum" if rng.random() < 0.3 else "core",
+            "corrupt": rng.choice(CORRUPTIONS) if rng.random() < 0.1 else None,
             "dtype": rng.choice(["float64"] * 16 + ["float32"] * 2 + ["int64", "complex128"])}
 
 
@@ -335,8 +377,10 @@ def worker(chunk):
             raise
         cnt.inc("runs")
         cnt.inc("entry:" + spec["entry"])
-        distinct.add(stable_hash(spec["entry"], tuple(spec["choices"]), spec["seed"], spec["tenalg"], spec["dtype"]))
+        distinct.add(stable_hash(spec["entry"], tuple(spec["choices"]), spec["seed"], spec["tenalg"], spec["dtype"], spec.get("corrupt")))
         cnt.inc("dtype:" + spec["dtype"])
+        if spec.get("corrupt"):
+            cnt.inc("probe:workload_made_invalid_on_purpose:" + spec["corrupt"])
         cnt.inc("tenalg:" + spec["tenalg"])
         for fp, text, rspec in vs:
             k = per.get(fp, 0)
@@ -433,6 +477,17 @@ def minimise(spec, fp):
                 cands.append(ch[:i] + [0] + ch[i + 1 :])
                 if ch[i] > 1:
                     cands.append(ch[:i] + [ch[i] - 1] + ch[i + 1 :])
+        for key, simple in (("corrupt", None), ("dtype", "float64")):
+            if cur.get(key, simple) != simple:
+                try:
+                    got = _reproduces(dict(cur, **{key: simple}), fp, P)
+                except Exception:
+                    got = None
+                if got is not None:
+                    cur = got
+                    changed = True
+        if changed:
+            continue
         if cur.get("tenalg", "core") != "core":
             try:
                 got = _reproduces(dict(cur, tenalg="core"), fp, P)
@@ -485,6 +540,7 @@ def make_replay(spec, fp, seed, run_idx):
         "seed": spec.get("seed", 0),
         "tenalg": spec.get("tenalg", "core"),
         "dtype": spec.get("dtype", "float64"),
+        "corrupt": spec.get("corrupt"),
         "fault": spec.get("fault"),
         "faults": [spec["fault"]] if spec.get("fault") else [],
         "schedule": [],
@@ -503,7 +559,7 @@ def replay_file(path):
     with open(path) as f:
         rp = json.load(f)
     P = proxy.get()
-    spec = {"entry": rp["entry"], "choices": rp["choices"], "seed": rp["seed"], "fault": rp["fault"], "tenalg": rp.get("tenalg", "core"), "dtype": rp.get("dtype", "float64")}
+    spec = {"entry": rp["entry"], "choices": rp["choices"], "seed": rp["seed"], "fault": rp["fault"], "tenalg": rp.get("tenalg", "core"), "dtype": rp.get("dtype", "float64"), "corrupt": rp.get("corrupt")}
     r = exec_fault(spec, P, rp["fault"], observe=True)
     fps = sorted(fingerprint(spec["entry"], p, k, r["tags"]) for p, k in r["diffs"])
     dg = digest_obj([r["names"], r["outcome"], [list(d) for d in r["diffs"]]])
@@ -514,7 +570,7 @@ def replay_file(path):
 
 # ------------------------------------------------------------------ driver interface
 
-QUICK_RUNS = 3600
+QUICK_RUNS = 3000
 CHUNK = 10
 CHUNK_TIMEOUT = 900
 THOROUGH_S = 1200
